@@ -19,12 +19,13 @@ import (
 //
 // ParamStr("tmpl") is a sequence of segments separated by "\x00":
 //   "C" text                      concrete bytes
+//   "K" word                      the word with every letter in either case (symbolic)
 //   "H" class min max             a hole: every length min..max (a Choose), each
 //                                 byte symbolic and constrained to the class
 // classes: a any byte; w whitespace [ \t\n\r\v\f]; s [ \t]; l letter [A-Za-z];
 //          L lower-case letter; i identifier byte [A-Za-z0-9_]; d digit;
 //          x hex digit; p printable ASCII except quotes/backslash/$/{ ;
-//          n any byte except \n and \r; c any byte except '*' '/' '?' '>' \n \r
+//          z 'Z' or 'z'; n any byte except \n and \r; c any byte except '*' '/' '?' '>' \n \r
 // BuildInput returns the buffer and, per byte, whether it belongs to a hole.
 
 func classOK(c byte, b byte) bool {
@@ -47,6 +48,8 @@ func classOK(c byte, b byte) bool {
 		return Or(And(b >= '0', b <= '9'), Or(And(b >= 'a', b <= 'f'), And(b >= 'A', b <= 'F')))
 	case 'p':
 		return And(And(b >= 0x20, b <= 0x7e), And(And(b != '"', b != '\''), And(And(b != '\\', b != '$'), And(b != '{', b != '`'))))
+	case 'z':
+		return Or(b == 'Z', b == 'z')
 	case 'n':
 		return And(b != '\n', b != '\r')
 	case 'c':
@@ -88,6 +91,22 @@ func BuildInput() (in []byte, hole []bool) {
 			for i := 1; i < len(sg); i++ {
 				in = append(in, sg[i])
 				hole = append(hole, false)
+			}
+		case 'K':
+			// a word in any letter case: every letter is a symbolic byte b with
+			// (b | 0x20) == lower-case letter; other bytes are concrete
+			for i := 1; i < len(sg); i++ {
+				c := sg[i]
+				if (c >= 'a' && c <= 'z') || (c >= 'A' && c <= 'Z') {
+					b := NondetByte()
+					Assume((b | 0x20) == (c | 0x20))
+					Assume(Or(And(b >= 'A', b <= 'Z'), And(b >= 'a', b <= 'z')))
+					in = append(in, b)
+					hole = append(hole, true)
+				} else {
+					in = append(in, c)
+					hole = append(hole, false)
+				}
 			}
 		case 'H':
 			// "H" class min max, single characters / small numbers: H a 0 3 -> "Ha03"
